@@ -3,7 +3,7 @@
 import json,glob,re,collections,sys
 pid=sys.argv[1]; mx=int(sys.argv[2]) if len(sys.argv)>2 else 40
 c=collections.Counter(); ex={}
-for f in glob.glob(f'/verif/replays/{pid}/*.json'):
+for f in glob.glob(__import__('os').environ.get('VERIF','/verif')+f'/replays/{pid}/*.json'):
     d=json.load(open(f)); sig=d['signature']; clause=sig.split(':')[0]
     shape=re.sub(r'\[[^\]]*\]|=[^+]*','',sig[len(clause)+1:])
     k=(clause,shape); c[k]+=1; ex.setdefault(k,(sig,d['detail']))
